@@ -15,7 +15,7 @@ BOUND = ("forall(lambda j: isinstance(val_at(obj_dict(props), j), _Property) and
          "not attr_absent(val_at(obj_dict(props), j),'required') and val_at(obj_dict(props), j).name is key_at(obj_dict(props), j) and "
          "is_str(val_at(obj_dict(props), j).source) and val_at(obj_dict(props), j).parent is element, len(obj_dict(props)))")
 contract(P + "Properties.__init__",
-         requires="is_obj(element) and (is_np(props) or (isinstance(props, _PropertyDict) and dict_wf(obj_dict(props)) and " + BOUND + ")) and "
+         requires="(is_obj(element) or is_cls(element)) and (is_np(props) or (isinstance(props, _PropertyDict) and dict_wf(obj_dict(props)) and " + BOUND + ")) and "
                   "(pattern is None or is_np(pattern) or dict_wf(pattern)) and (is_bool(additional) or is_obj(additional))",
          returns="self.element is element and self.props is (props if truthy(props) else {}) and isinstance(self.pattern, PatternDict) and "
                  "obj_dict(self.pattern) is (pattern if truthy(pattern) else {}) and implies(is_obj(additional), self.additional is additional) and "
@@ -23,7 +23,7 @@ contract(P + "Properties.__init__",
          modifies=["self"], idempotent_writes=["_Property.bind"],
          kinds={"prop": "_Property"}, props=["C01", "C05", "C08", "C13", "C14"])
 
-SELF_WF = ("not attr_absent(self,'element') and is_obj(self.element) and not attr_absent(self,'props') and not attr_absent(self,'pattern') and "
+SELF_WF = ("not attr_absent(self,'element') and (is_obj(self.element) or is_cls(self.element)) and not attr_absent(self,'props') and not attr_absent(self,'pattern') and "
            "not attr_absent(self,'additional') and is_obj(self.additional) and isinstance(self.pattern, PatternDict) and dict_wf(obj_dict(self.pattern)) and "
            "forall(lambda j: is_str(key_at(obj_dict(self.pattern), j)) and is_obj(val_at(obj_dict(self.pattern), j)), len(obj_dict(self.pattern))) and "
            "(is_dict(self.props) or isinstance(self.props, _PropertyDict)) and dict_wf(obj_dict(self.props)) and "
